@@ -23,6 +23,20 @@ META = dict(
 )
 
 
+_SNAP = {}
+
+
+def _unchanged(env, pts):
+    """cells of the caller's query points / parameter rows before and after the membership test"""
+    snap = _SNAP.pop(id(pts), None)
+    if snap is None:
+        return []
+    _, before, P, pbefore = snap
+    after = SH.elems(env, pts.as_tensor)
+    pafter = SH.elems(env, P.as_tensor) if len(P) else []
+    return list(zip(before, after)) + list(zip(pbefore, pafter))
+
+
 def _query(env, sh, k, m):
     """query points (m rows if k==0 else k rows) + params"""
     P, rows = SH.params(env, sh.pvars, k)
@@ -34,6 +48,7 @@ def _query(env, sh, k, m):
         coords[name] = t
         cols.append((SH.elems(env, t), dim))
     pts = Points.from_coordinates(coords)
+    _SNAP[id(pts)] = (pts, SH.elems(env, pts.as_tensor), P, SH.elems(env, P.as_tensor) if len(P) else [])
     prow = []
     for i in range(n):
         r = []
@@ -54,17 +69,23 @@ def interior_case(name, mk, info, k, m=2):
         for p, prm in zip(prow, prms):
             env.assume(sh.oset.positive_at(p, prm, env.L))
         res = sh.dom._contains(pts, P)
+        res2 = sh.dom._contains(pts, P)  # asking again must give the same answers
+        same = _unchanged(env, pts)
         L = env.L
         if exact:
             want = [(sh.oset.closure(p, prm, L, 0), None) for p, prm in zip(prow, prms)]
         else:
             want = [(sh.oset.interior(p, prm, L, 0), sh.oset.closure(p, prm, L, 0)) for p, prm in zip(prow, prms)]
-        return dict(res=res, want=want, shape=list(res.shape), n=len(prow))
+        return dict(res=res, res2=res2, same=same, want=want, shape=list(res.shape), n=len(prow))
 
     def goals(o, L, env):
         yield "one_truth_value_per_row", o["shape"] == [o["n"], 1]
+        for j, (x, y) in enumerate(o["same"]):
+            yield "query_points_and_parameters_unchanged[%d]" % j, L.eq(x, y)
         if o["shape"] != [o["n"], 1]:
             return
+        for i, (r1, r2) in enumerate(zip(o["res"], o["res2"])):
+            yield "same_answer_when_asked_again[row%d]" % i, L.Iff(r1[0], r2[0])
         for i, (r, (a, b)) in enumerate(zip(o["res"], o["want"])):
             got = r[0]
             if b is None:
@@ -100,14 +121,17 @@ def boundary_case(name, mk, info, k, m=1):
         SH.bound_all_inputs(env, 16, [sh.oset.bind(p, prm)[2] if hasattr(sh.oset, 'bind') else prm for p, prm in zip(prow, prms)])
         bd = sh.dom.boundary
         res = bd._contains(pts, P)
+        same = _unchanged(env, pts)
         on = [sh.oset.boundary_band(p, prm, L, 0) for p, prm in zip(prow, prms)]
         far = [L.Not(sh.oset.boundary_band(p, prm, L, TAU_OUT)) for p, prm in zip(prow, prms)]
         corner = [_both_bands(sh, p, prm, L, TAU_OUT) for p, prm in zip(prow, prms)]
-        return dict(res=res, on=on, far=far, corner=corner, shape=list(res.shape), n=len(prow))
+        return dict(res=res, on=on, far=far, corner=corner, same=same, shape=list(res.shape), n=len(prow))
 
     def goals(o, L, env):
         shp = o["shape"]
         yield "one_truth_value_per_row", shp == [o["n"], 1]
+        for j, (x, y) in enumerate(o["same"]):
+            yield "query_points_and_parameters_unchanged[%d]" % j, L.eq(x, y)
         res = o["res"]
         flat = [r[0] if isinstance(r, list) else r for r in res]
         if len(flat) != o["n"]:
